@@ -58,6 +58,11 @@ type halfEdgeRecord struct {
 	// in the input geometries.
 	srcFace [2]bool
 
+	// srcFaceCount is the number of polygons in the input geometries that
+	// explicitly border onto this edge from their interior. It is more than
+	// one when overlapping members of a GeometryCollection share an edge.
+	srcFaceCount [2]int
+
 	// inSet encodes whether or not this edge is (explicitly or implicitly)
 	// part of the input geometry for each operand.
 	inSet [2]bool
